@@ -5,4 +5,3 @@ import ParsleyVerif.Props.C04
 #print axioms PV.c04_eval
 #print axioms PV.c04_eval_root
 #print axioms PV.c04_eval_needs_interpreter
-#print axioms PV.c04_facts
